@@ -127,10 +127,12 @@ def exec_source(src, names, ns, label, transform=None):
         if transform:
             node = transform(node)
         node = _Rewrite(src).visit(node)
+        if '.' in qual:
+            node.name = qual.replace('.', '__')      # methods must not shadow module-level functions of the same name
         mod = ast.Module(body=[node], type_ignores=[])
         ast.fix_missing_locations(mod)
         exec(compile(mod, label + ':' + qual, 'exec'), ns)
-        out[qual] = ns[qual.split('.')[-1]]
+        out[qual] = ns[node.name]
     return out
 
 
